@@ -215,6 +215,16 @@ def run_property(prop, tier, seed, replay=None):
         for k, v in s.env.items():
             env[k] = str(v[tix]) if isinstance(v, (tuple, list)) else str(v)
         cmd = [bins[s.harness]] + [a if not isinstance(a, (tuple, list)) else str(a[tix]) for a in s.args]
+        if s.kind == 'fuzz':
+            # libFuzzer campaign: fresh corpus directory + committed seed corpus, wall-clock bound, fixed seed (approximately reproducible;
+            # the saved text case of a failure is the reproducible unit and is replayed through the ordinary harness)
+            corp = os.path.join(env['VERIF_WORK'], 'corpus')
+            os.makedirs(corp, exist_ok=True)
+            seeds = os.path.join(VERIF, 'corpus', pid, 'fuzzseeds')
+            secs = s.fuzz.get('secs', (12, 300))[tix]
+            cmd = [bins[s.harness], corp] + ([seeds] if os.path.isdir(seeds) else []) + [
+                '-max_total_time=%d' % secs, '-seed=%d' % sseed, '-print_final_stats=1', '-timeout=20', '-rss_limit_mb=3000',
+                '-max_len=%d' % s.fuzz.get('max_len', 4096), '-artifact_prefix=' + os.path.join(env['VERIF_WORK'], 'artifact-'), '-verbosity=0']
         rc, out, dt, to = run_proc(cmd, env, s.timeout[tix], cwd=env['VERIF_WORK'])
         st = None
         if os.path.exists(env['VERIF_STATS']):
@@ -253,6 +263,8 @@ def run_property(prop, tier, seed, replay=None):
         if to:
             inconclusive += 1
             notes.append('sub-check %s shard %d hit its time budget (inconclusive, not a violation)' % (s.name, i))
+        elif rc != 0 and s.kind == 'fuzz' and not (st and st.get('failures')) and ('timeout' in out[-3000:] or 'out-of-memory' in out[-3000:] or 'slow-unit' in out[-3000:]):
+            notes.append('libFuzzer shard %s/%d ended with a timeout / oom / slow-unit artifact: load noise, not a violation' % (s.name, i))
         elif rc != 0 and not (st and st.get('failures')):
             # died without recording a failure: harness problem or crash outside a case
             crashfile = os.path.join(replays_dir, 'harness-crash-%s-%d.log' % (s.name, i))
@@ -283,7 +295,12 @@ def run_property(prop, tier, seed, replay=None):
         nfail, nrun = 0, 0
         last = ''
         for _ in range(5 if (s.kind == 'stress' or f.get('class', '').startswith('concurrent')) else 3):
-            fails, out = replay_once(bins[s.harness], pid, tier, seed, path, extra_env={k: (str(v[tix]) if isinstance(v, (tuple, list)) else str(v)) for k, v in s.env.items()})
+            rh = s.harness
+            if s.kind == 'fuzz':
+                rh = prop.corpus_harness
+                if rh not in bins:
+                    bins.update(B.build([rh]))
+            fails, out = replay_once(bins[rh], pid, tier, seed, path, extra_env={k: (str(v[tix]) if isinstance(v, (tuple, list)) else str(v)) for k, v in s.env.items()})
             nrun += 1
             if fails:
                 nfail += 1
@@ -310,7 +327,7 @@ def run_property(prop, tier, seed, replay=None):
             try:
                 txt = open(path, errors='replace').read()
                 if not txt.startswith('#harness'):
-                    open(path, 'w').write('#harness %s\n' % s.harness + txt)
+                    open(path, 'w').write('#harness %s\n' % (prop.corpus_harness if s.kind == 'fuzz' else s.harness) + txt)
             except Exception:
                 pass
             violations.append((skey or finding_key_from_verdict(v2), v2, path))
